@@ -70,9 +70,9 @@ def c05_1(ctx: Ctx) -> RuleResult:
         res.add(g, c, "the kernel receives (values, config.realizations.weights, failed, options.first, options.last)", ok,
                 "" if ok else f"arguments are `{[show(a, 40) for a in t[2]]}`", construct=f"{g.name}: kernel arguments")
     # the ranking of successes and the failure flags (shared with C04.4, sort kernel only)
-    from .c04 import c04_4
+    from .c04 import ranking_of_successes
 
-    for i in c04_4(ctx).instances:
+    for i in ranking_of_successes(ctx).instances:
         if f.name in i.construct or "failure flags for " + f.name in i.construct:
             i.rule = "C05.1"
             res.instances.append(i)
